@@ -784,7 +784,7 @@ def correspond(ctx, res):
             p0 = w["procs"][0][0]
             items.append(("corpus", w, [{"kind": "all", "pid": None}, {"kind": "unix", "pid": p0}, {"kind": "all", "pid": p0},
                                         {"kind": "inet", "pid": None}]))
-        n = ctx.n(450, 25000)
+        n = ctx.n(1500, 30000)
         for i in range(n):
             fam = FAMILIES[i % len(FAMILIES)]
             w = gen_world(rng, fam)
@@ -819,7 +819,7 @@ def correspond(ctx, res):
                                  note="unknown kind must raise ValueError")
         # malformed stream
         raw_items = []
-        for i in range(ctx.n(120, 4000)):
+        for i in range(ctx.n(400, 6000)):
             w = gen_world(rng, "mixed")
             if not w["socks"]:
                 continue
@@ -833,12 +833,91 @@ def correspond(ctx, res):
             raw_items.append((how, files2, procs_b, qs))
         for a in range(0, len(raw_items), 400):
             run_raw(ctx, impl, raw_items[a:a + 400], res)
+        try:
+            checked, bad = live_format_check()
+            res.extra["live_kernel_lines_rerendered"] = checked
+            res.extra["live_kernel_format_mismatches"] = len(bad)
+            if bad:
+                res.notes.append("live /proc/net format differs from the renderer on %d line(s), e.g. %r" % (len(bad), bad[0]))
+        except Exception as e:  # supporting validation only
+            res.notes.append("live /proc/net format check skipped: %s" % e)
     finally:
         impl.close()
 
 
 def search(ctx, res, broken):
     correspond(ctx, res)
+
+
+# ------------------------------------------------------------------------------ renderer validation on the live kernel
+
+import re
+
+_INET_RE = re.compile(
+    rb"^ *(\d+): ([0-9A-F]{8}|[0-9A-F]{32}):([0-9A-F]{4}) ([0-9A-F]{8}|[0-9A-F]{32}):([0-9A-F]{4}) ([0-9A-F]{2}) "
+    rb"([0-9A-F]{8}):([0-9A-F]{8}) [0-9A-F]{2}:[0-9A-F]{8} [0-9A-F]{8} +(\d+) +(\d+) (\d+) ")
+_UNIX_RE = re.compile(rb"^[0-9a-f]+: ([0-9A-F]{8}) ([0-9A-F]{8}) ([0-9A-F]{8}) ([0-9A-F]{4}) ([0-9A-F]{2}) +(\d+)(?: (.*))?$")
+
+
+def live_format_check():
+    """Supporting only (DESIGN §3.3): every line of the sandbox kernel's own /proc/net files is inverted
+    with a strict parser into a socket record, re-rendered, and the columns psutil reads (and the
+    spacing around them) must come back byte-identical. Returns (lines_checked, mismatches)."""
+    checked, bad = 0, []
+    for name, fam, typ in (("tcp", "inet4", 1), ("udp", "inet4", 2), ("tcp6", "inet6", 1), ("udp6", "inet6", 2)):
+        try:
+            with open("/proc/net/" + name, "rb") as f:
+                lines = f.read().split(b"\n")[1:]
+        except OSError:
+            continue
+        for ln in lines:
+            if not ln:
+                continue
+            m = _INET_RE.match(ln)
+            if not m:
+                bad.append((name, ln[:80]))
+                continue
+
+            def unword(h):
+                return b"".join(struct.pack("=I", int(h[i:i + 8], 16)) for i in range(0, len(h), 8)).hex()
+            s = {"fam": fam, "typ": typ, "lip": unword(m.group(2)), "lport": int(m.group(3), 16),
+                 "rip": unword(m.group(4)), "rport": int(m.group(5), 16), "state": int(m.group(6), 16),
+                 "txq": int(m.group(7), 16), "rxq": int(m.group(8), 16), "uid": int(m.group(9)), "path": None,
+                 "inode": int(m.group(11)), "refcnt": 2, "flags": 0}
+            mine = py_render({"socks": [s], "procs": [], "v6": True})[name].split(b"\n")[1]
+            # compare "<laddr> <raddr> <st> <txq>:<rxq>" and " <uid> <timeout> <inode>" with their exact spacing
+            # (the timer / retransmit columns in between vary and are not read by psutil)
+            m2 = _INET_RE.match(mine)
+            checked += 1
+            ok = m2 is not None and ln[m.start(2):m.end(8)] == mine[m2.start(2):m2.end(8)]
+            if ok and int(m.group(10)) == 0:
+                ok = ln[m.end(8) + 21:m.end(11)] == mine[m2.end(8) + 21:m2.end(11)]
+            if ok and name in ("tcp", "udp"):
+                ok = len(ln) == len(mine)
+            if ok:
+                ok = ln.split()[9] == mine.split()[9] and ln.split()[7] == mine.split()[7]
+            if not ok:
+                bad.append((name, ln[:100], mine[:100]))
+    try:
+        with open("/proc/net/unix", "rb") as f:
+            lines = f.read().split(b"\n")[1:]
+    except OSError:
+        lines = []
+    for ln in lines:
+        if not ln:
+            continue
+        m = _UNIX_RE.match(ln)
+        if not m:
+            bad.append(("unix", ln[:80]))
+            continue
+        s = {"fam": "unix", "typ": int(m.group(4), 16), "lip": "", "lport": 0, "rip": "", "rport": 0,
+             "state": int(m.group(5), 16), "txq": 0, "rxq": 0, "uid": 0, "refcnt": int(m.group(1), 16),
+             "flags": int(m.group(3), 16), "inode": int(m.group(6)), "path": None if m.group(7) is None else m.group(7).hex()}
+        mine = py_render({"socks": [s], "procs": [], "v6": True})["unix"].split(b"\n")[1]
+        checked += 1
+        if ln.split(b": ", 1)[1] != mine.split(b": ", 1)[1]:
+            bad.append(("unix", ln[:100], mine[:100]))
+    return checked, bad
 
 
 # ------------------------------------------------------------------------------ replay / shrink
